@@ -14,7 +14,7 @@ missing metadata, early close, never-closed channel → timeout).
   concatenation; Err of any stream-level kind ⇒ state machine and final files untouched, no final file (only the temp
   file); Err `archive` happens only for an exact stream whose archive does not unpack, and leaves the state untouched.
 * `ErrLeavesFilesStatement` ("Err ⇒ final files untouched") is **false** as coded: `finalize` renames the temp file to
-  its final name *before* the archive is validated (F30) — `err_leaves_files_fails` (witness), `err_leaves_files_partial`
+  its final name *before* the archive is validated (F33) — `err_leaves_files_fails` (witness), `err_leaves_files_partial`
   (exact trigger: error kind `archive`).
 -/
 namespace DEngine.C17
@@ -309,14 +309,14 @@ def ErrLeavesFilesStatement : Prop :=
     (receive f n cs e).2.1 = .err er → (receive f n cs e).1.finals = f.finals
 
 /-- A one-chunk snapshot whose payload was replaced (checksum recomputed, so every per-chunk check passes). -/
-def w30 : List Chunk :=
+def w33 : List Chunk :=
   [{ seq := 0, total := 1, term := 2, leader := 1, md := .label 3 2, sumOk := true, data := (0, false) }]
 
-/-- **Negation (F30)**: the stream passes every check, `finalize` renames the temp file to `…3-2.tar.gz`, only then the
+/-- **Negation (F33)**: the stream passes every check, `finalize` renames the temp file to `…3-2.tar.gz`, only then the
     unpack fails: the transfer is reported as failed and a final snapshot file exists. -/
 theorem err_leaves_files_fails : ¬ ErrLeavesFilesStatement := by
   intro h
-  have := h { sm := .own, finals := [((1, 1), .old)], part := false } 1 w30 .closed .archive (by decide)
+  have := h { sm := .own, finals := [((1, 1), .old)], part := false } 1 w33 .closed .archive (by decide)
   revert this; decide
 
 /-- **Partial theorem, trigger exact**: a failed transfer changes the final files only in the `archive` case, i.e. only
